@@ -22,8 +22,19 @@ def to_plain(x, _path=""):
     raise NotPlainJSON("non-JSON value %r (%s) at %s" % (x, type(x).__name__, _path))
 
 
+def _nz(x):
+    """-0.0 and 0.0 are one JSON number (same type, same value; only the sign in the text differs)"""
+    if isinstance(x, float) and x == 0.0:
+        return 0.0
+    if isinstance(x, dict):
+        return {k: _nz(v) for k, v in x.items()}
+    if isinstance(x, list):
+        return [_nz(v) for v in x]
+    return x
+
+
 def canon(x):
-    return json.dumps(to_plain(x), sort_keys=True, ensure_ascii=True, allow_nan=False)
+    return json.dumps(_nz(to_plain(x)), sort_keys=True, ensure_ascii=True, allow_nan=False)
 
 
 def seq(a, b):
